@@ -29,9 +29,20 @@ COMMON_TRUSTED = [
 ]
 
 
+SIGKILLED = []  # commands that were killed from outside (SIGKILL: the kernel's OOM killer) and re-run
+
+
 def sh(cmd, cwd=None, env=None, timeout=None):
-    p = subprocess.run(cmd, cwd=cwd, env=env, shell=isinstance(cmd, str), stdout=subprocess.PIPE,
-                       stderr=subprocess.STDOUT, timeout=timeout, text=True, errors="replace")
+    """Runs a command.  A child that dies of SIGKILL did not give a verdict (the kernel's OOM killer
+    picks coqc and harness processes when the machine is short of memory; our own time limits raise
+    TimeoutExpired instead), so it is run again, twice at most, after a pause."""
+    for attempt in range(3):
+        p = subprocess.run(cmd, cwd=cwd, env=env, shell=isinstance(cmd, str), stdout=subprocess.PIPE,
+                           stderr=subprocess.STDOUT, timeout=timeout, text=True, errors="replace")
+        if p.returncode != -9 or attempt == 2:
+            break
+        SIGKILLED.append(os.path.basename(cmd if isinstance(cmd, str) else " ".join(cmd[:1] + cmd[-1:]))[:80])
+        time.sleep(20 * (attempt + 1))
     return p.returncode, p.stdout
 
 
@@ -505,6 +516,8 @@ def main(argv):
     }
     if coqchk:
         cov["coqchk"] = coqchk
+    if SIGKILLED:
+        cov["rerun_after_sigkill"] = SIGKILLED
     if gen_info:
         cov["translator"] = {k: v[-600:] for k, v in gen_info.items()}
     ev = {
